@@ -437,11 +437,13 @@ pub struct PortState {
     pub io_fail_n: usize,               // how many consecutive calls fail from io_fail_at on (reads, writes and flushes count)
     pub write_cap: Option<usize>,       // the port accepts at most this many bytes per write call (a legal short write)
     pub io_kind: usize,                 // which kind of hard error an injected read / write / flush fault reports
+    pub intr_every: Option<usize>,      // every k-th read / write call is first answered with ErrorKind::Interrupted (not a failure)
+    intr_count: usize,
 }
 
 impl PortState {
     pub fn new(line: Line) -> Self {
-        PortState { line, timeout: None, fail: "none".into(), fail_kind: 0, dev_log: vec![], rx: VecDeque::new(), tx: vec![], io_log: vec![], io_calls: 0, io_fail_at: None, t0: Instant::now(), read_latency: None, fail_writes: 0, io_fail_n: 1, write_cap: None, io_kind: 0 }
+        PortState { line, timeout: None, fail: "none".into(), fail_kind: 0, dev_log: vec![], rx: VecDeque::new(), tx: vec![], io_log: vec![], io_calls: 0, io_fail_at: None, t0: Instant::now(), read_latency: None, fail_writes: 0, io_fail_n: 1, write_cap: None, io_kind: 0, intr_every: None, intr_count: 0 }
     }
     fn now(&self) -> u64 {
         self.t0.elapsed().as_micros() as u64
@@ -451,6 +453,16 @@ impl PortState {
         let i = self.io_calls;
         self.io_calls += 1;
         (i, matches!(self.io_fail_at, Some(a) if i >= a && i < a + self.io_fail_n.max(1)))
+    }
+    /// Whether this call is to be interrupted (EINTR): a call that the caller is expected to repeat, not a failure.
+    fn interrupt_now(&mut self) -> bool {
+        match self.intr_every {
+            Some(k) if k > 0 => {
+                self.intr_count += 1;
+                self.intr_count % k == 0
+            }
+            _ => false,
+        }
     }
     fn io_error(&mut self, what: &str) -> io::Error {
         self.io_kind += 1;
@@ -537,6 +549,14 @@ impl SerialPortSettings for ISettings {
 
 impl Read for IPort {
     fn read(&mut self, buf: &mut [u8]) -> io::Result<usize> {
+        {
+            let mut s = self.st.borrow_mut();
+            if s.interrupt_now() {
+                let t = s.now();
+                s.io_log.push(json!({"e": "pr", "req": buf.len(), "ret": -4, "t0": t, "t1": t}));
+                return Err(io::Error::new(io::ErrorKind::Interrupted, "interrupted"));
+            }
+        }
         let (t0, fail, latency) = {
             let mut s = self.st.borrow_mut();
             let (_, fail) = s.next_io();
@@ -573,6 +593,10 @@ impl Write for IPort {
         {
             let mut s = self.st.borrow_mut();
             let t0 = s.now();
+            if s.interrupt_now() {
+                s.io_log.push(json!({"e": "pw", "data": j::bytes(buf), "ret": -4, "t0": t0, "t1": t0}));
+                return Err(io::Error::new(io::ErrorKind::Interrupted, "interrupted"));
+            }
             let (_, fail) = s.next_io();
             if fail || s.fail_writes > 0 {
                 s.fail_writes = s.fail_writes.saturating_sub(1);
@@ -916,6 +940,11 @@ fn run_pm(out: &mut TraceOut, m: &Message<'static>, tape: &[u8], io_fail_at: Opt
 
 /// ... `fail_n` consecutive port calls refused from call `io_fail_at` on; a port that accepts at most `cap` bytes per write.
 fn run_pm_opts(out: &mut TraceOut, m: &Message<'static>, tape: &[u8], io_fail_at: Option<usize>, fail_n: usize, cap: Option<usize>, timed: bool) {
+    run_pm_full(out, m, tape, io_fail_at, fail_n, cap, timed, 0, None)
+}
+
+#[allow(clippy::too_many_arguments)]
+fn run_pm_full(out: &mut TraceOut, m: &Message<'static>, tape: &[u8], io_fail_at: Option<usize>, fail_n: usize, cap: Option<usize>, timed: bool, kind: usize, intr: Option<usize>) {
     let st = Rc::new(RefCell::new(PortState::new(target_line())));
     let port = IPort::new(st.clone());
     let mut bus = match SerialSignBus::try_new(port) {
@@ -928,6 +957,8 @@ fn run_pm_opts(out: &mut TraceOut, m: &Message<'static>, tape: &[u8], io_fail_at
         s.io_fail_at = io_fail_at;
         s.io_fail_n = fail_n;
         s.write_cap = cap;
+        s.io_kind = kind;
+        s.intr_every = intr;
         s.io_calls = 0;
         s.io_log.clear();
         s.tx.clear();
@@ -1019,6 +1050,31 @@ pub fn record_c16(a: &Args) -> usize {
         if !is_sd || n % 8 == 0 {
             for f in 0..3 {
                 run_pm(&mut out, m, &tapes[n % tapes.len()], Some(f), false);
+            }
+        }
+    }
+    // a hard error of every kind at every read of the reply line (first byte .. line feed), and interrupted calls (EINTR, which
+    // is not a failure) sprinkled over the whole exchange
+    {
+        let a3 = Address(3);
+        let reply = Frame::from(Message::ReportState(a3, State::PageShown)).to_bytes_with_newline();
+        let long_reply = Frame::from(Message::Unknown(Frame::new(a3, MsgType(9), Data::try_new(vec![0xEE; 20]).unwrap()))).to_bytes_with_newline();
+        for (mi, m) in [Message::QueryState(a3), Message::Hello(Address(0xFFFF)), Message::RequestOperation(a3, Operation::LoadNextPage)].iter().enumerate() {
+            for (ri, rep) in [&reply, &long_reply].into_iter().enumerate() {
+                let mut tape = rep.clone();
+                tape.extend_from_slice(&reply);
+                for pos in 1..=rep.len() + 1 {
+                    for kind in 0..ERR_KINDS.len() {
+                        if thorough || (pos + kind + mi + ri) % 4 == 0 || kind == 2 {
+                            out.balance();
+                            run_pm_full(&mut out, m, &tape, Some(pos), 1, None, false, kind, None);
+                        }
+                    }
+                }
+                for every in [2usize, 3, 5, 7] {
+                    run_pm_full(&mut out, m, &tape, None, 1, Some(3), false, 0, Some(every));
+                    run_pm_full(&mut out, m, &tape, None, 1, None, false, 0, Some(every));
+                }
             }
         }
     }
